@@ -656,6 +656,7 @@ class Parser:
             TokenType.PLUS_ASSIGN,
             TokenType.MINUS_ASSIGN,
             TokenType.STAR_ASSIGN,
+            TokenType.STARSTAR_ASSIGN,
             TokenType.SLASH_ASSIGN,
             TokenType.PERCENT_ASSIGN,
             TokenType.AND_ASSIGN,
@@ -813,6 +814,7 @@ class Parser:
             TokenType.PLUS_ASSIGN,
             TokenType.MINUS_ASSIGN,
             TokenType.STAR_ASSIGN,
+            TokenType.STARSTAR_ASSIGN,
             TokenType.SLASH_ASSIGN,
             TokenType.PERCENT_ASSIGN,
             TokenType.AND_ASSIGN,
